@@ -3,7 +3,7 @@
    current source again and Coq checks that it gives exactly these terms.  First produced by the translator from
    /repo at e806a41 and reviewed against the source by hand. *)
 From Coq Require Import String.
-From AV Require Import Base.Util Model.Prim Model.EncDSL.
+From AV Require Import Base.Util Model.Prim Model.EncDSL Model.EncDSLV.
 Open Scope string_scope.
 
 (* _encode_message_header(client_id, correlation_id, request_key, api_version) *)
@@ -167,3 +167,44 @@ Definition ast_encode_message : prog :=
                IIntString (EField (EVar 0) "key");
                IIntString (EField (EVar 0) "value")]]]
         [IRaise Protocol]]].
+
+(* create_message(payload, key, magic) *)
+Definition ast_create_message : vprog :=
+  (VCond (CEq (EVar 2) 1)
+    (VLetNow
+      (VRet (XMessage (EVar 2) (EConst 0) (EVar 1) (EVar 0) (EVar 3))))
+    (VRet (XMessage (EVar 2) (EConst 0) (EVar 1) (EVar 0) (ENone)))).
+
+(* create_gzip_message(message_set, magic) *)
+Definition ast_create_gzip_message : vprog :=
+  (VLetMsgSet (EVar 0)
+    (VLetCodec 1 (EVar 2)
+      (VCond (CEq (EVar 1) 1)
+        (VLetNow
+          (VRet (XMessage (EVar 1) (EConst 1) (ENone) (EVar 3) (EVar 4))))
+        (VRet (XMessage (EVar 1) (EConst 1) (ENone) (EVar 3) (ENone)))))).
+
+(* create_snappy_message(message_set, magic) *)
+Definition ast_create_snappy_message : vprog :=
+  (VLetMsgSet (EVar 0)
+    (VLetCodec 2 (EVar 2)
+      (VCond (CEq (EVar 1) 1)
+        (VLetNow
+          (VRet (XMessage (EVar 1) (EConst 2) (ENone) (EVar 3) (EVar 4))))
+        (VRet (XMessage (EVar 1) (EConst 2) (ENone) (EVar 3) (ENone)))))).
+
+(* create_message_set(requests, codec, magic) *)
+Definition ast_create_message_set : vprog :=
+  (VLetBuild (EVar 0)
+    [BCond (CEq (EVar 2) 1)
+       [BExtendCreate (EField (EVar 3) "messages") (EVar 4) (EField (EVar 3) "key") (EConst 1)]
+       [BExtendCreate (EField (EVar 3) "messages") (EVar 4) (EField (EVar 3) "key") (EConst 0)]]
+    (VCond (CEq (EVar 1) 0)
+      (VRet (XE (EVar 3)))
+      (VCond (CEq (EVar 1) 1)
+        (VLetWrapper 1 (EVar 3) (EVar 2)
+          (VRet (XList1 (XE (EVar 4)))))
+        (VCond (CEq (EVar 1) 2)
+          (VLetWrapper 2 (EVar 3) (EVar 2)
+            (VRet (XList1 (XE (EVar 4)))))
+          (VRaise Unsupported))))).
